@@ -41,6 +41,7 @@ def run(ctx):
             if g is None:
                 ctx.err('Tweak.%s getter' % name, 'anchor vanished', SK)
                 continue
+            ctx.analysed.add('%s::Tweak.%s' % (SK, name))
             got = ctx.pe(SK).run_function(g).term()
             ctx.same_term('Tweak.%s getter' % name, got, ctx.spec_term(S.getter(lo, hi)), '%s:%d Tweak.%s' % (SK, g.lineno, name))
             if name == 'reserved':
